@@ -349,16 +349,20 @@ func visOf(name string, arg int64) (func(k, v int64) bool, bool) {
 
 // ---- janitor detection --------------------------------------------------
 
-func janitorGoroutines() int {
+// ids of the goroutines currently running a janitor loop
+func janitorGoroutines() map[string]bool {
 	buf := make([]byte, 1<<22)
 	n := runtime.Stack(buf, true)
-	cnt := 0
+	ids := map[string]bool{}
 	for _, g := range strings.Split(string(buf[:n]), "\n\n") {
-		if strings.Contains(g, "newXsyncMap") && strings.Contains(g, "func1") && !strings.Contains(g, "main.main") {
-			cnt++
+		if strings.Contains(g, "cache.newXsyncMap") && strings.Contains(g, ".func1()") {
+			f := strings.Fields(g)
+			if len(f) > 1 {
+				ids[f[1]] = true
+			}
 		}
 	}
-	return cnt
+	return ids
 }
 
 // ---- driver ---------------------------------------------------------------
@@ -506,10 +510,15 @@ func main() {
 		before := janitorGoroutines()
 		t = build(cs)
 		runtime.Gosched()
-		after := janitorGoroutines()
+		started := false
+		for id := range janitorGoroutines() {
+			if !before[id] {
+				started = true
+			}
+		}
 		// interval/presize are not observable through the API; the model's
 		// values are compared only where the driver can see them.
-		fmt.Fprintf(out, "built janitor=%s dflt=%d cb=%s\n", b01(after > before), t.DefaultExpiration(), t.EvictedCallbackID())
+		fmt.Fprintf(out, "built janitor=%s dflt=%d cb=%s\n", b01(started), t.DefaultExpiration(), t.EvictedCallbackID())
 		idx = 0
 	}
 	for in.Scan() {
